@@ -39,8 +39,8 @@ TRUSTED = ['process death is os._exit / SIGKILL (OS buffers survive); power loss
 
 ALPHABET = ['a', ' ', "'", '"', '$', ';', '&', '|', '*', '?', '(', ')', '-']
 CRAFTED = ['$(touch x)', '`id`', 'a b', '*', 'a;touch pwned.db', '-rf', "it's.db", 'a"b.db', 'with space.db', '$HOME.db', 'a|b', 'a&b',
-           '(a)', '??', 'x.db; rm -rf .', '-', '--', 'a\tb', 'a\nb', '%s', '{0}', 'café.db', ' lead', 'trail ', '~']
-VICTIMS = ['a', 'b', 'x', 'id', 'aa', 'aaa', '-a', 'pwned.db', 'victim.txt', 'rf', 'touch', 'lead', 'trail']
+           '(a)', '??', 'x.db; touch pwned2', '-', '--', 'a\tb', 'a\nb', '%s', '{0}', 'café.db', ' lead', 'trail ', '~']
+VICTIMS = ['a', 'b', 'x', 'id', 'aa', 'aaa', '-a', 'pwned.db', 'victim.txt', 'rf', 'touch', 'lead', 'trail', 'x.db']
 
 
 # ---------------------------------------------------------------------------------------------------------------
